@@ -83,7 +83,19 @@ type nameCall struct {
 	Name string `json:"name"`
 }
 
+type capEl struct {
+	Ty   string   `json:"ty"`
+	Cs   []string `json:"cs"`
+	Name string   `json:"name"`
+	Lang string   `json:"lang"`
+}
+
 type treeCase struct {
+	// character-level capture cases emitted by spec/Capture.tla
+	Els    []capEl    `json:"els,omitempty"`
+	W      string     `json:"w,omitempty"`
+	Splits [][]string `json:"splits,omitempty"`
+
 	Fam   string                       `json:"fam"`
 	H     []hEntry                     `json:"H"`
 	Hops  []hop                        `json:"hops"`
@@ -615,15 +627,85 @@ var treeUniv struct {
 }
 
 var treeStats struct {
-	Compared int `json:"compared"`
-	Equal    int `json:"equal"`
-	Emitted  int `json:"emitted"`
+	Compared       int `json:"compared"`
+	Equal          int `json:"equal"`
+	Emitted        int `json:"emitted"`
+	OracleChecked  int `json:"oracle_checked"`
+	OracleMismatch int `json:"oracle_mismatch"`
 }
+
+var capLang = map[string]string{"ab+": "[ab]+", "ab1": "[ab]", "a|b": "a|b", "a?": "a?", "a": "a"}
+
+// capToCase turns a Capture.tla case into an ordinary routing case: one route made of the one segment, one
+// request, and cross-checks the harness' oracle splitter against the splits TLC computed declaratively.
+func capToCase(c *treeCase, idx int) {
+	var sg aSeg
+	sg.K = "R"
+	var t strings.Builder
+	for i := 0; i < len(c.Els); i++ {
+		e := c.Els[i]
+		if e.Ty == "lit" {
+			l := strings.Join(e.Cs, "")
+			sg.Els = append(sg.Els, aEl{Ty: "lit", V: l})
+			t.WriteString(l)
+			continue
+		}
+		if e.Lang == "any+" {
+			sg.Els = append(sg.Els, aEl{Ty: "bind", V: e.Name, G: 1})
+			sg.Binds = append(sg.Binds, e.Name)
+			t.WriteString("{" + e.Name + "}")
+			continue
+		}
+		// adjacent regex binds are spelled as one parameter list or as separate elements (same language)
+		t.WriteString("{" + e.Name + ": /" + capLang[e.Lang] + "/")
+		sg.Els = append(sg.Els, aEl{Ty: "bind", V: e.Name, G: 1, Re: capLang[e.Lang]})
+		sg.Binds = append(sg.Binds, e.Name)
+		for idx%2 == 0 && i+1 < len(c.Els) && c.Els[i+1].Ty == "bind" && c.Els[i+1].Lang != "any+" {
+			i++
+			e2 := c.Els[i]
+			t.WriteString(", " + e2.Name + ": /" + capLang[e2.Lang] + "/")
+			sg.Els = append(sg.Els, aEl{Ty: "bind", V: e2.Name, G: 2, Re: capLang[e2.Lang]})
+			sg.Binds = append(sg.Binds, e2.Name)
+		}
+		t.WriteString("}")
+	}
+	sg.T = t.String()
+	c.H = []hEntry{{M: "GET", R: aRoute{Segs: []aSeg{sg}, Gram: true}, Ok: true, Hdr: []hdrC{}, Call: 1}}
+	c.Hops = []hop{}
+	c.Reqs = []treeReq{{M: "GET", Raw: "/" + c.W}}
+	// oracle cross-check
+	mine := map[string]bool{}
+	for _, sp := range splitsOf(sg.Els, c.W, 4096) {
+		mine[strings.Join(sp, "\x1f")] = true
+	}
+	theirs := map[string]bool{}
+	for _, sp := range c.Splits {
+		theirs[strings.Join(sp, "\x1f")] = true
+	}
+	treeStats.OracleChecked++
+	if len(mine) != len(theirs) {
+		treeStats.OracleMismatch++
+	} else {
+		for k := range mine {
+			if !theirs[k] {
+				treeStats.OracleMismatch++
+				break
+			}
+		}
+	}
+	c.Els, c.Splits = nil, nil
+}
+
 
 func treeReplay(raw json.RawMessage, idx int, tr *traceWriter) {
 	var c treeCase
 	if err := json.Unmarshal(raw, &c); err != nil {
 		panic(err)
+	}
+	if len(c.Els) > 0 {
+		capToCase(&c, idx)
+		b, _ := json.Marshal(c)
+		raw = b
 	}
 	vias := []string{c.Via}
 	if c.Via == "" || c.Via == "both" {
